@@ -2,6 +2,7 @@ package twig
 
 import (
 	"strings"
+	"sync"
 
 	"github.com/tyler-sommer/stick"
 	"github.com/tyler-sommer/stick/parse"
@@ -62,6 +63,12 @@ func NewAutoEscapeExtension() *AutoEscapeExtension {
 type autoEscapeVisitor struct {
 	ext   *AutoEscapeExtension
 	stack []string
+
+	// mu serializes traversals: the visitor is shared by every template parsed
+	// through the Env, possibly from several goroutines at once, and the stack
+	// above belongs to the one traversal in progress. It is held from entering
+	// a module (the root of every tree) until leaving it.
+	mu sync.Mutex
 }
 
 // push adds the given name on top of the stack.
@@ -87,6 +94,7 @@ func (v *autoEscapeVisitor) current() string {
 func (v *autoEscapeVisitor) Enter(n parse.Node) {
 	switch node := n.(type) {
 	case *parse.ModuleNode:
+		v.mu.Lock()
 		v.push(v.guessTypeFromName(node.Origin))
 	case *parse.BlockNode:
 		v.push(v.guessTypeFromName(node.Origin))
@@ -109,7 +117,10 @@ func (v *autoEscapeVisitor) Enter(n parse.Node) {
 
 func (v *autoEscapeVisitor) Leave(n parse.Node) {
 	switch n.(type) {
-	case *parse.ModuleNode, *parse.BlockNode:
+	case *parse.ModuleNode:
+		v.pop()
+		v.mu.Unlock()
+	case *parse.BlockNode:
 		v.pop()
 	}
 }
